@@ -1361,3 +1361,17 @@ package core
 //@   requires @distinctids forall i, j :: 0 <= i && i < j && j < len(fn(core.Fork.OutParams, self).List) ==> fn(core.Fork.OutParams, self).List[i].Id != fn(core.Fork.OutParams, self).List[j].Id
 //@   loop 1 invariant true
 //@   ensures @recordkept result.0 != nil
+
+// ---------------------------------------------------------------- C01 a mapped call gets ITS element of the collection it is mapped over
+// resolveSplit (fork has at least one part): once the split's value is resolved, the element for
+// this fork's index or key is taken from it (elemtaken[0] counts getElement calls) - unless the
+// value is a reference that already carries THIS call's fork index (then the reference
+// resolution has selected the element).  An index of some other (outer) call does not count.
+//@ func core.getElement property C01
+//@   trusted
+//@   effect elemtaken 0
+//@ func core.TopNode.resolveSplit property C01
+//@   requires node != nil && binding != nil && forall j :: 0 <= j && j < len(fork) ==> fork[j] != nil && fork[j].Split != nil
+//@   ensures @element len(fork) > 0 && result.0 && isnil(result.2) && !(istype(binding.Value, ptr_syntax.RefExp) && as(binding.Value, ptr_syntax.RefExp) != nil && has(as(binding.Value, ptr_syntax.RefExp).Forks, binding.Call)) ==> ghost(elemtaken)[0] > old(ghost(elemtaken)[0])
+//@   loop 1 invariant ghost(elemtaken) == old(ghost(elemtaken)) && 0 <= iter && iter <= len(fork) && (len(fork) > 0 ==> iter < len(fork))
+//@   loop 2 invariant ghost(elemtaken) == old(ghost(elemtaken)) && forall c *syntax.CallStm :: visited(c) ==> c != binding.Call
